@@ -5,8 +5,13 @@ import json, os, shutil, subprocess, sys, re
 
 PID, IDX = sys.argv[1], sys.argv[2]
 SRC = '/tmp/seed/%s/seed_out' % PID
-WT = '/tmp/seedchk/%s_%s' % (PID, IDX)
-OUT = '/verif/seeded/%s-%s' % (PID, IDX)
+OUTID = '%s-%s' % (PID, IDX)
+if '--src' in sys.argv:
+    SRC = sys.argv[sys.argv.index('--src') + 1]
+if '--out' in sys.argv:
+    OUTID = sys.argv[sys.argv.index('--out') + 1]
+WT = '/tmp/seedchk/%s' % OUTID
+OUT = '/verif/seeded/%s' % OUTID
 PY = '/venv/bin/python'
 
 
